@@ -133,6 +133,9 @@ ASSUMPTIONS = [
     "the newline after </%doc> and after a closing tag is ordinary text",
     "Python-syntax checks and tag-class validation done by node constructors are outside the lexer model; "
     "on such errors only prefix agreement is required",
+    "the hostile-Python stream runs with sys.setrecursionlimit(1000) (CPython's default, restored afterwards): which "
+    "nesting depths the parser and the identifier visitors refuse depends on the interpreter's recursion limit and on "
+    "the CPython version (the exception classes met are recorded in the branch histogram)",
     "lone surrogates are not generated for the correspondence streams (Lean's Char has none); the hostile-Python "
     "oracle stream writes them into templates, as code and as text",
     "a file that starts with U+FEFF starts with the UTF-8 byte order mark, which reading a template file strips "
@@ -145,6 +148,12 @@ TRUSTED_EXTRA = [
     "agreement with CPython's `re` is checked by the per-matcher streams, not proved",
     "C01: the running time of CPython's backtracking regex engine is measured (timing test), not modelled",
     "C01: Unicode class tables are probed from the running interpreter (tools/regen_unicode.py)",
+    "C01: tools/regen_lexercfg.py recognises source shapes with Python's ast: the matcher cascade of Lexer.parse, the "
+    "two F1-repair shapes (second append_node in match_text, assignment to match_position in match_tag_start), the "
+    "position of `self.textlength = len(self.text)` relative to the preprocessor loop, the width of the handler in "
+    "pyparser.parse, the routing of the three identifier visitors of mako/ast.py through pyparser.visit, and the "
+    "is_primary / is_ternary tables; a shape it misreads yields a wrong Boolean or table, which the correspondence "
+    "and oracle streams (not the obligations) would have to expose",
 ]
 
 # sha1 over the regex literals of mako/lexer.py the model was written against (Generated/LexerCfg.lean holds the
@@ -1335,6 +1344,7 @@ def canonical_paths_oracle():
 
 # ---- hostile Python inside directives: CPython's parser rejects it with every exception class it can raise;
 #      lexing must end with a parse tree or a Mako syntax / compile exception
+RECURSION_LIMIT = 1000      # CPython's default; set explicitly while the hostile-Python stream runs (C11 pins the same)
 NEST_DEPTHS = [60, 250, 450, 700, 1000, 2000, 3500, 6000, 12000, 60000]
 NESTINGS = [
     ("unary", lambda d: "-" * d + "1"),
@@ -1389,6 +1399,15 @@ def hostile_python_oracle():
     bad = []
     hist, outcomes = {}, {}
     n = 0
+    old_limit = sys.getrecursionlimit()
+    sys.setrecursionlimit(RECURSION_LIMIT)      # which depths are "too deep" depends on it: pinned for the run
+    try:
+        return _hostile_python_cases(bad, hist, outcomes, n, traceback, exceptions, Lexer, Template)
+    finally:
+        sys.setrecursionlimit(old_limit)
+
+
+def _hostile_python_cases(bad, hist, outcomes, n, traceback, exceptions, Lexer, Template):
     for sname, code, cls in hostile_snippets():
         hist["hostile:cpython-rejects-with:%s" % cls] = hist.get("hostile:cpython-rejects-with:%s" % cls, 0) + 1
         for cname, mk in CONSTRUCTS:
